@@ -143,3 +143,54 @@ def opcodes():
     yield ('opcode-constants', ok2, None, 'enumeration')
     bad = next((k for k in range(16) if mod.is_reserved(k) != (k in {3, 4, 5, 6, 7, 11, 12, 13, 14, 15})), None)
     yield ('is_reserved-agrees(16 opcodes)', bad is None, None if bad is None else dict(opcode=bad), 'enumeration')
+
+
+@ground('package.socket-ownership-scan', serves=['C11', 'C12'])
+def ownership_scan():
+    """whole-package AST scan (every run): every call of sendall / shutdown / close on the object
+    stored in self._sock is lexically inside `with self._lock`; sockets still local to _connect*
+    (not yet published in self._sock) are exempt.  And: state.closing / state.closed are assigned
+    only in the functions that carry the C12 store-monitor."""
+    import ast
+    import os
+    from . import source
+    root = os.path.join(source.ROOT, 'lomond')
+    bad = []
+    flag_writers = set()
+    n_calls = 0
+    for fn in sorted(os.listdir(root)):
+        if not fn.endswith('.py'):
+            continue
+        tree = ast.parse(open(os.path.join(root, fn)).read())
+
+        def visit(node, in_lock, func):
+            nonlocal n_calls
+            for child in ast.iter_child_nodes(node):
+                il, f2 = in_lock, func
+                if isinstance(child, (ast.FunctionDef, ast.AsyncFunctionDef)):
+                    f2 = (func + '.' if func else '') + child.name
+                    il = False
+                if isinstance(child, ast.ClassDef):
+                    f2 = (func + '.' if func else '') + child.name
+                if isinstance(child, ast.With):
+                    for it in child.items:
+                        if ast.unparse(it.context_expr) == 'self._lock':
+                            il = True
+                if isinstance(child, ast.Call) and isinstance(child.func, ast.Attribute) and child.func.attr in ('sendall', 'send', 'shutdown', 'close'):
+                    recv = ast.unparse(child.func.value)
+                    if recv == 'self._sock':
+                        n_calls += 1
+                        if not il:
+                            bad.append('%s:%d %s in %s outside `with self._lock`' % (fn, child.lineno, ast.unparse(child.func), func))
+                if isinstance(child, (ast.Assign, ast.AugAssign)):
+                    targets = child.targets if isinstance(child, ast.Assign) else [child.target]
+                    for t in targets:
+                        if isinstance(t, ast.Attribute) and t.attr in ('closing', 'closed') and ast.unparse(t.value).endswith('state'):
+                            flag_writers.add('%s:%s' % (fn[:-3], func))
+                visit(child, il, f2)
+        visit(tree, False, '')
+    yield ('socket-calls-on-self._sock-only-under-the-lock(%d call sites)' % n_calls, not bad and n_calls >= 3, None if not bad else dict(sites=bad), 'AST scan')
+    expected = {'websocket:WebSocket.State.__init__', 'websocket:WebSocket.close', 'websocket:WebSocket._on_close',
+                'websocket:WebSocket.on_disconnect', 'session:WebsocketSession.write'}
+    extra = sorted(flag_writers - expected)
+    yield ('closing/closed-assigned-only-in-monitored-functions', not extra, None if not extra else dict(unmonitored=extra), 'AST scan')
